@@ -4,6 +4,7 @@
 import Purr.Lemmas.BuilderL
 import Purr.Props.C11
 import Purr.Props.C09
+import Purr.Lemmas.BuildErrL
 namespace Purr.C10
 open Purr Purr.Spec
 
@@ -98,6 +99,134 @@ theorem join_error_origin (s s' : BState) (e : Event) (hb : bstep s e = some s')
                   · cases h; exact ⟨bk, r, rfl, by simp [hst], hl⟩
         · cases hb; exact absurd hnew hold
       · cases hb
+
+/-! ### the second sentence of the property: when and why building fails (Purr/Lemmas/BuildErrL.lean) -/
+
+/-- A `Join(a, c)` ERROR IS REAL: it was recorded by a closing ring digit, written while atom `a` was the head, for a
+    ring opened on atom `c` — in a state without earlier errors — and that closure really cannot be made: `a = c` (a
+    self-bond), `a` and `c` are bonded already (a second bond), or the kinds written at the two ends are irreconcilable
+    (`JoinDefect`) -/
+theorem build_join_error_is_real (es : List Event) (a c : Nat) (h : build? es = some (.error (.join a c))) :
+    ∃ pre bk r post s1, es = pre ++ .join bk r :: post ∧ brun .init pre = some s1 ∧ s1.errors = [] ∧ JoinDefect s1 bk r a c := by
+  unfold build? at h
+  cases hr : brun .init es with
+  | none => rw [hr] at h; cases h
+  | some s =>
+    rw [hr] at h
+    simp only [Option.map_some, Option.some.injEq] at h
+    unfold BState.build at h
+    cases he : s.errors with
+    | nil =>
+      rw [he] at h
+      obtain ⟨i, hi, _⟩ := buildNodes_error h
+      cases hi
+    | cons e0 l =>
+      rw [he] at h
+      simp only [Except.error.injEq] at h
+      subst h
+      obtain ⟨pre, ev, post, s1, h1, h2, h3, a', c', ⟨bk, r, rfl, hd⟩, h5⟩ := brun_first_error es hr rfl he
+      cases h5
+      exact ⟨pre, bk, r, post, s1, h1, h2, h3, hd⟩
+
+/-- AN `Rnum(i)` ERROR IS REAL: the `i`-th ring-closure digit of the history exists, no later digit carries its number,
+    and that number has been written an odd number of times — under the pairing rule "a digit closes the nearest
+    preceding open digit of the same number, otherwise it opens" it is an opening that is never answered -/
+theorem build_rnum_error_is_real (es : List Event) (i : Nat) (h : build? es = some (.error (.rnum i))) :
+    ∃ b r, (writtenJoins es)[i]? = some (b, r) ∧ (∀ j, i < j → ((writtenJoins es)[j]?).map (·.2) ≠ some r) ∧
+      countR es r % 2 = 1 := by
+  unfold build? at h
+  cases hr : brun .init es with
+  | none => rw [hr] at h; cases h
+  | some s =>
+    rw [hr] at h
+    simp only [Option.map_some, Option.some.injEq] at h
+    unfold BState.build at h
+    cases he : s.errors with
+    | cons e0 l =>
+      rw [he] at h
+      simp only [Except.error.injEq] at h
+      subst h
+      obtain ⟨_, _, _, _, _, _, _, a', c', _, h5⟩ := brun_first_error es hr rfl he
+      cases h5
+    | nil =>
+      rw [he] at h
+      have hinv : PInv es s := by simpa using PInv.run es PInv.init hr he
+      obtain ⟨i', hi, x, node, hx, e, hem, x', r, ht⟩ := buildNodes_error h
+      cases hi
+      obtain ⟨h1, h2, h3⟩ := hinv.ph.1 x node.edges e i x' r (view_get hx) hem ht
+      refine ⟨e.kind, r, h2, h3, ?_⟩
+      have := hinv.par r
+      rw [h1] at this
+      simpa using this.symm
+
+/-- BUILDING FAILS EXACTLY WHEN a closing ring digit meets a defect (self-bond, second bond, irreconcilable kinds) or a
+    ring digit is left unmatched: for every conformant history, `build` returns a graph if and only if no step meets a
+    `JoinDefect` and every ring number has been written an even number of times -/
+theorem build_succeeds_iff (es : List Event) (hc : Conformant es) :
+    (∃ g, build? es = some (.ok g)) ↔
+      ((∀ pre ev post s1, es = pre ++ ev :: post → brun .init pre = some s1 → ∀ a c, ¬ Defect s1 ev a c) ∧
+       ∀ r, countR es r % 2 = 0) := by
+  unfold Conformant at hc
+  obtain ⟨ps', hps⟩ := Option.isSome_iff_exists.mp hc
+  obtain ⟨s, hr, hsafe⟩ := brun_bsafe es BSafe.init hps
+  have hbuild : build? es = some s.build := by unfold build?; rw [hr]; rfl
+  rw [hbuild]
+  have hiff := brun_no_error_iff es hr rfl
+  constructor
+  · rintro ⟨g, hg⟩
+    simp only [Option.some.injEq] at hg
+    have he : s.errors = [] := by
+      unfold BState.build at hg
+      cases he : s.errors with
+      | nil => rfl
+      | cons e l => rw [he] at hg; cases hg
+    have hbn : buildNodes s.graph = .ok g := by unfold BState.build at hg; rw [he] at hg; exact hg
+    refine ⟨hiff.mp he, ?_⟩
+    have hinv : PInv es s := by simpa using PInv.run es PInv.init hr he
+    intro r
+    have hnone : s.opens.lookup r = none := by
+      cases hl : s.opens.lookup r with
+      | none => rfl
+      | some t =>
+        exfalso
+        obtain ⟨tn, htn, hf⟩ := hsafe.opens r t (lookup_mem hl)
+        obtain ⟨edge, hedge⟩ := Option.isSome_iff_exists.mp hf
+        obtain ⟨hem, heo⟩ := find_mem_filter hedge
+        obtain ⟨i, x, ht⟩ := isOpenFor_target heo
+        obtain ⟨bs, hbs, _⟩ := (buildNodes_ok hbn t).1 tn htn
+        obtain ⟨_, hall⟩ := nodeBonds_ok hbs
+        obtain ⟨t', ht'⟩ := hall edge hem
+        rw [ht] at ht'; cases ht'
+    have := hinv.par r
+    rw [hnone] at this
+    have h2 : ¬ (countR es r % 2 = 1) := by simpa using this.symm
+    omega
+  · rintro ⟨hno, heven⟩
+    have he : s.errors = [] := hiff.mpr hno
+    have hinv : PInv es s := by simpa using PInv.run es PInv.init hr he
+    have hall : ∀ (x : Nat) (node : Node), s.graph[x]? = some node → ∀ e ∈ node.edges, ∃ t, e.target = Target.id t := by
+      intro x node hx e hem
+      cases ht : e.target with
+      | id t => exact ⟨t, rfl⟩
+      | rnum i x' r =>
+        exfalso
+        obtain ⟨h1, _, _⟩ := hinv.ph.1 x node.edges e i x' r (view_get hx) hem ht
+        have := hinv.par r
+        rw [h1, heven r] at this
+        simp at this
+    obtain ⟨g, hg⟩ := buildNodes_total hall
+    exact ⟨g, by unfold BState.build; rw [he]; simp [hg]⟩
+
+/-! non-vacuity: `C/1CC/1` (irreconcilable kinds) reports `Join(2, 0)`, and in `C1C` digit 0 is unmatched; the theorems
+    above apply to both -/
+example : build? [.root (.aliphatic .C), .join .up ⟨1, by decide⟩, .extend .elided (.aliphatic .C), .extend .elided (.aliphatic .C),
+    .join .up ⟨1, by decide⟩] = some (.error (.join 2 0)) := rfl
+example : build? [.root (.aliphatic .C), .join .elided ⟨1, by decide⟩, .extend .elided (.aliphatic .C)] = some (.error (.rnum 0)) := rfl
+example : ∃ b r, (writtenJoins [.root (.aliphatic .C), .join .elided ⟨1, by decide⟩, .extend .elided (.aliphatic .C)])[0]? = some (b, r) ∧
+    countR [.root (.aliphatic .C), .join .elided ⟨1, by decide⟩, .extend .elided (.aliphatic .C)] r % 2 = 1 := by
+  obtain ⟨b, r, h1, _, h3⟩ := build_rnum_error_is_real _ 0 (rfl : build? [.root (.aliphatic .C), .join .elided ⟨1, by decide⟩,
+    .extend .elided (.aliphatic .C)] = some (.error (.rnum 0)))
+  exact ⟨b, r, h1, h3⟩
 
 /-! non-vacuity: the former defect D9 (`C11`, `C1C1`) is reported, a three-membered ring builds -/
 example : build? [.root (.aliphatic .C), .join .elided ⟨1, by decide⟩, .join .elided ⟨1, by decide⟩]
